@@ -204,11 +204,21 @@ static void case_td(Rng & rng, TD L, int mode, const std::string & tier, const P
         case DQ_: dq.reset(new M::DoubleQLearning(S, A, p.g, p.alpha)); if (mode) dq->setQFunction(init); break;
         case DYNA_: dy.reset(new M::DynaQ<M::Model>(dummy, p.alpha, 1)); break;
     }
+    // mode 0: "zero-initialised tables" is part of the property -- report what the CONSTRUCTOR produced, not what the harness assumes
+    M::QFunction initC = init * 2;
+    if (mode == 0) switch (L) {
+        case QL_: init = ql->getQFunction(); break;
+        case HYST_: init = hy->getQFunction(); break;
+        case SARSA_: init = sa->getQFunction(); break;
+        case ESARSA_: break;                                   // caller-owned table
+        case DQ_: init = dq->getQFunctionA(); initC = dq->getQFunction(); break;
+        case DYNA_: init = dy->getQFunction(); break;
+    }
     Line l; l << "C11" << "td" << (polKind ? "esarsap" : tdName[L]) << S << A << p.g << p.rmin << p.rmax << mode;
     if (polKind) l << polKind << eps2;
     else if (L == ESARSA_) putTable(l, pol);
     putTable(l, init);
-    if (L == DQ_) { M::QFunction c = init * 2; putTable(l, c); }
+    if (L == DQ_) putTable(l, initC);
     int n = p.maxSteps + k0;
     if (mode == 3) l << k0;
     l << n;
@@ -390,17 +400,20 @@ static void case_tr(Rng & rng, TR L, const std::string & tier, const Params * fo
     }
     Line l; l << "C11" << (pobj ? "trp" : "tr") << trName[L] << S << A << p.g << p.alpha << lam << p.tol << p.eps;
     if (pobj) { l << kt << et << kb << eb; putTable(l, tt); putTable(l, tb); }
-    putTable(l, pt); putTable(l, pb); putTable(l, init);
+    putTable(l, pt); putTable(l, pb);
+    // when the start table is the zero table it is NOT installed with setQFunction: the constructor's own table is reported
+    const bool fresh = init.isZero(0.0);
+    auto start = [&](auto & lr) { if (fresh) init = lr.getQFunction(); else lr.setQFunction(init); putTable(l, init); l << (fresh ? 1 : 0); };
     switch (L) {
-        case SARSAL_: { M::SARSAL lr(S, A, p.g, p.alpha, p.lam, p.tol); lr.setQFunction(init); run_tr(l, lr, rng, p, AI::Matrix2D::Ones(S, A), true); break; }
-        case CQL: { M::QL lr(S, A, p.g, p.alpha, p.lam, p.tol, p.eps); lr.setQFunction(init); run_tr(l, lr, rng, p, AI::Matrix2D::Ones(S, A), false); break; }
-        case CRETRACE: { M::RetraceL lr(behaviour, p.g, p.alpha, p.lam, p.tol, p.eps); lr.setQFunction(init); run_tr(l, lr, rng, p, pb, false); break; }
-        case CTB: { M::TreeBackupL lr(S, A, p.g, p.alpha, p.lam, p.tol, p.eps); lr.setQFunction(init); run_tr(l, lr, rng, p, AI::Matrix2D::Ones(S, A), false); break; }
-        case CIS: { M::ImportanceSampling lr(behaviour, p.g, p.alpha, p.tol, p.eps); lr.setQFunction(init); run_tr(l, lr, rng, p, pb, false); break; }
-        case EQL: { M::QLEvaluation lr(target, p.g, p.alpha, p.lam, p.tol); lr.setQFunction(init); run_tr(l, lr, rng, p, AI::Matrix2D::Ones(S, A), false); break; }
-        case ERETRACE: { M::RetraceLEvaluation lr(target, behaviour, p.g, p.alpha, p.lam, p.tol); lr.setQFunction(init); run_tr(l, lr, rng, p, pb, false); break; }
-        case ETB: { M::TreeBackupLEvaluation lr(target, p.g, p.alpha, p.lam, p.tol); lr.setQFunction(init); run_tr(l, lr, rng, p, AI::Matrix2D::Ones(S, A), false); break; }
-        case EIS: { M::ImportanceSamplingEvaluation lr(target, behaviour, p.g, p.alpha, p.tol); lr.setQFunction(init); run_tr(l, lr, rng, p, pb, false); break; }
+        case SARSAL_: { M::SARSAL lr(S, A, p.g, p.alpha, p.lam, p.tol); start(lr); run_tr(l, lr, rng, p, AI::Matrix2D::Ones(S, A), true); break; }
+        case CQL: { M::QL lr(S, A, p.g, p.alpha, p.lam, p.tol, p.eps); start(lr); run_tr(l, lr, rng, p, AI::Matrix2D::Ones(S, A), false); break; }
+        case CRETRACE: { M::RetraceL lr(behaviour, p.g, p.alpha, p.lam, p.tol, p.eps); start(lr); run_tr(l, lr, rng, p, pb, false); break; }
+        case CTB: { M::TreeBackupL lr(S, A, p.g, p.alpha, p.lam, p.tol, p.eps); start(lr); run_tr(l, lr, rng, p, AI::Matrix2D::Ones(S, A), false); break; }
+        case CIS: { M::ImportanceSampling lr(behaviour, p.g, p.alpha, p.tol, p.eps); start(lr); run_tr(l, lr, rng, p, pb, false); break; }
+        case EQL: { M::QLEvaluation lr(target, p.g, p.alpha, p.lam, p.tol); start(lr); run_tr(l, lr, rng, p, AI::Matrix2D::Ones(S, A), false); break; }
+        case ERETRACE: { M::RetraceLEvaluation lr(target, behaviour, p.g, p.alpha, p.lam, p.tol); start(lr); run_tr(l, lr, rng, p, pb, false); break; }
+        case ETB: { M::TreeBackupLEvaluation lr(target, p.g, p.alpha, p.lam, p.tol); start(lr); run_tr(l, lr, rng, p, AI::Matrix2D::Ones(S, A), false); break; }
+        case EIS: { M::ImportanceSamplingEvaluation lr(target, behaviour, p.g, p.alpha, p.tol); start(lr); run_tr(l, lr, rng, p, pb, false); break; }
     }
     l.emit();
     std::printf("#stat tr-%s%s 1\n", trName[L], pobj ? "-policyobj" : "");
